@@ -89,8 +89,13 @@ struct ReqRx : IRx
            " ka=" + (r.keep_alive() ? "1" : "0");
   }
 
-  void feed(const std::string& data, bool loop) override
+  void feed(const std::string& data_in, bool loop) override
   {
+    // an exact-size heap copy: reading at or beyond `end` is a heap-buffer-overflow under ASan
+    std::unique_ptr<char[]> copy(new char[data_in.size() ? data_in.size() : 1]);
+    std::memcpy(copy.get(), data_in.data(), data_in.size());
+    struct { const char* p; size_t n; const char* data() const { return p; } size_t size() const { return n; } }
+      data{copy.get(), data_in.size()};
     const char* iter = data.data();
     const char* end = data.data() + data.size();
     Rx st = Rx::VALID;
@@ -169,8 +174,12 @@ struct RespRx : IRx
 
   RespRx(size_t maxb, size_t maxk) : rx(maxb, maxk) {}
 
-  void feed(const std::string& data, bool loop) override
+  void feed(const std::string& data_in, bool loop) override
   {
+    std::unique_ptr<char[]> copy(new char[data_in.size() ? data_in.size() : 1]);
+    std::memcpy(copy.get(), data_in.data(), data_in.size());
+    struct { const char* p; size_t n; const char* data() const { return p; } size_t size() const { return n; } }
+      data{copy.get(), data_in.size()};
     const char* iter = data.data();
     const char* end = data.data() + data.size();
     Rx st = Rx::VALID;
